@@ -359,9 +359,11 @@ func runCheck(id, tier, replayPath string, workers int, extraOverlay map[string]
 			}
 			res, err := l.Explore(es, active, workers, trace)
 			if err != nil {
+				// (an entry the engine cannot run — typically a harness override whose signature no longer matches the
+				// code — is inconclusive; the other entries still run, and a violation any of them finds is reported)
 				fmt.Println("ENGINE-ERROR:", err)
-				l.Close()
-				return 2
+				inconclusive = append(inconclusive, es.Name+": engine error: "+err.Error())
+				continue
 			}
 			results = append(results, res)
 			fmt.Printf("  %-28s paths=%d completed=%d obligations=%d/%d queries=%d solver=%.1fs wall=%.1fs outcomes=%v\n",
